@@ -9159,7 +9159,7 @@ class WBEMConnection:  # pylint: disable=too-many-instance-attributes
                 self.last_request_len, self.last_reply_len,
                 self.last_server_response_time, exc)
             if self._operation_recorders:
-                self.operation_recorder_stage_result(result, exc)
+                self.operation_recorder_stage_result(result_tuple, exc)
 
     def CloseEnumeration(self, context):
         # pylint: disable=invalid-name
